@@ -29,8 +29,8 @@ import (
 // the two don't-cares at switch-on).
 
 type c14Op struct {
-	K string `json:"k"`           // "run" | "off" | "on"
-	N int    `json:"n,omitempty"` // run: machine cycles
+	K string `json:"k"`           // "run" | "off" | "on" | "ly" (a store to the read-only LY register, which must change nothing)
+	N int    `json:"n,omitempty"` // run: machine cycles; ly: the value stored
 }
 
 // c14Case: the runner switches the LCD off, writes STAT = Src and LYC, clears
@@ -152,10 +152,12 @@ func c14Run(cas c14Case) (sig string, err error) {
 	}
 	total := 0
 	for _, op := range cas.Ops {
-		if op.K != "run" && op.K != "off" && op.K != "on" || op.N < 0 {
+		if op.K != "run" && op.K != "off" && op.K != "on" && op.K != "ly" || op.N < 0 {
 			return "invalid-case", fmt.Errorf("bad op %+v", op)
 		}
-		total += op.N
+		if op.K == "run" {
+			total += op.N
+		}
 	}
 	if total > 40*c13Frame {
 		return "invalid-case", fmt.Errorf("case too long")
@@ -216,6 +218,11 @@ func c14Run(cas c14Case) (sig string, err error) {
 			if s, e := judge(0, 0, fmt.Sprintf("op %d: LCD switched off", i)); e != nil {
 				return s, e
 			}
+		case "ly":
+			m.Mp.Write(0xff44, uint8(op.N))
+			if s, e := judge(0, 0, fmt.Sprintf("op %d: store of %02x to LY", i, uint8(op.N))); e != nil {
+				return s, e
+			}
 		case "on":
 			m.Mp.Write(0xff40, 0x91)
 			var may uint8
@@ -258,7 +265,7 @@ type c14Raw struct {
 
 var c14RawGen = rapid.Custom(func(rt *rapid.T) c14Raw {
 	r := c14Raw{}
-	r.Kind = rapid.IntRange(0, 5).Draw(rt, "kind") // 0-3 run, 4 off, 5 on
+	r.Kind = rapid.IntRange(0, 6).Draw(rt, "kind") // 0-3 run, 4 off, 5 on, 6 store to LY
 	r.Style = rapid.IntRange(0, 3).Draw(rt, "style")
 	if rapid.IntRange(0, 3).Draw(rt, "linesel") == 0 {
 		r.Line = []int{0, 1, 142, 143, 144, 145, 152, 153}[rapid.IntRange(0, 7).Draw(rt, "seam")]
@@ -314,6 +321,8 @@ func c14Resolve(src, lyc uint8, raws []c14Raw) c14Case {
 		case r.Kind == 4:
 			cas.Ops = append(cas.Ops, c14Op{K: "off"})
 			l.SwitchOff()
+		case r.Kind == 6:
+			cas.Ops = append(cas.Ops, c14Op{K: "ly", N: (r.Small*7 + r.T) & 0xff})
 		default:
 			cas.Ops = append(cas.Ops, c14Op{K: "on"})
 			if !l.On {
